@@ -25,7 +25,7 @@ const (
 )
 
 func init() {
-	Register(&Rule{ID: "FORMATCONST_CONSTS", Props: []string{"C14"}, Min: 8,
+	Register(&Rule{ID: "FORMATCONST_CONSTS", Props: []string{"C14", "C01"}, Min: 8,
 		Doc: "published constants: DefaultBranchFactor evaluates to 16; V1Marshaler/V115Binary are initialised to \"v1marshaler\"/\"v1.1.5binary\" and never reassigned; " +
 			"crcTable is crc64.MakeTable(crc64.ECMA); defaultMarshal/defaultUnmarshal are encoding/json.Marshal/Unmarshal and are what NewInMemory and LoadMast fall back on.",
 		Run: runFormatConsts})
